@@ -594,6 +594,10 @@ func (fc *FnCtx) cutLoop(h *ssa.BasicBlock, st *State) *State {
 			vc.assert(mkImp(mkAnd(hs.guard, inv.cand.Flag), t))
 		} else {
 			vc.assume(hs, t)
+			if vc.invAssume == nil {
+				vc.invAssume = map[int]string{}
+			}
+			vc.invAssume[len(vc.asserts)-1] = inv.label
 		}
 	}
 	li.headSt = hs
